@@ -53,6 +53,7 @@ class TU:
         self.reg = {}        # cpp type -> vid
         self.regs = []       # (vid, cpp type, custom message or None)
         self.grammars = []
+        self.chain_sel = set()   # registry ids selected in the chain-directed selector variant
 
     def vid(self, cpp, custom=None):
         if cpp not in self.reg:
@@ -538,6 +539,45 @@ def kinds_table(tu, rnd, variant, profile):
     return ks
 
 
+def sels_table(tu, rnd, selv):
+    """parse-tree selector per registry id: 0 not selected, 1 store, 2 remove_content, 3 fold_one, 4 discard_empty"""
+    out = []
+    for (vid, cpp, custom) in tu.regs:
+        if selv == 0:
+            out.append(1)
+        elif selv == 1:
+            out.append(rnd.choice([0, 1, 1]))
+        elif selv == 2:
+            out.append(rnd.choice([0, 1, 1, 2, 3, 4]))
+        else:
+            if tu.chain_sel:
+                out.append(1 if vid in tu.chain_sel else 0)
+            else:
+                out.append(rnd.choice([0, 0, 1]))
+    return out
+
+
+def chain_grammar(tu, gname, rnd, k, top_selected):
+    """unselected chain of k named rules around a selected leaf: straddles parse_tree's is_leaf< 8 > optimisation"""
+    g = G(tu, gname, rnd, "tree", "C12")
+    g.cell = "chain:%d:%s" % (k, "top" if top_selected else "notop")
+    g.names = ["%s::C%d" % (gname, i) for i in range(k + 1)] + ["%s::T" % gname]
+    g.named_ids = [g.add("NAMED", vid=tu.vid(n)) for n in g.names]
+    for i in range(k):
+        g.bodies.append(("seq< %s >" % g.names[i + 1], g.add("SEQ", kids=(g.named_ids[i + 1],))))
+    leaf = g.op("plus", [g.atom("one", "a")])
+    g.finish_named(k, leaf[0], leaf[1])
+    body = g.op("seq", [(g.names[0], g.named_ids[0]), g.op("star", [g.atom("one", "b")]), g.op("opt", [(g.names[0], g.named_ids[0])])])
+    g.finish_named(k + 1, body[0], body[1])
+    tu.chain_sel.add(tu.vid(g.names[k]))
+    tu.chain_sel.add(tu.vid("one< 'b' >"))
+    if top_selected:
+        tu.chain_sel.add(tu.vid(g.names[k + 1]))
+        tu.chain_sel.add(tu.vid(g.names[0]))
+    g.close()
+    return g
+
+
 # ---------------------------------------------------------------------- emission
 def emit_tu(tu, seed, variants=(0, 1, 2, 3, 4)):
     rnd = random.Random(seed * 1000003 + 17)
@@ -564,6 +604,14 @@ def emit_tu(tu, seed, variants=(0, 1, 2, 3, 4)):
         out.append("#if MON_VARIANT == %d" % v)
         out.append("static constexpr signed char MON_KINDS[] = { %s };" % ", ".join(str(k) for k in ks))
         out.append("#endif")
+    out.append("#ifndef MON_SELV")
+    out.append("#define MON_SELV 0")
+    out.append("#endif")
+    for v in range(4):
+        ss = sels_table(tu, random.Random(seed * 131 + v), v)
+        out.append("#if MON_SELV == %d" % v)
+        out.append("static constexpr signed char MON_SELS[] = { %s };" % ", ".join(str(k) for k in ss))
+        out.append("#endif")
     out.append('#include "mon/tu.hpp"')
     for g in tu.grammars:
         out.append("namespace %s {" % g.gname)
@@ -575,7 +623,7 @@ def emit_tu(tu, seed, variants=(0, 1, 2, 3, 4)):
     out.append("static const mon::grammar GS[] = {")
     for g in tu.grammars:
         salt = rnd.randrange(1 << 30)
-        out.append('  { "%s", "%s", "%s", "%s", "%s", %s::nodes, sizeof( %s::nodes ) / sizeof( %s::nodes[ 0 ] ), %d, "%s", %d, MON_KINDS, %du, %du, &mon::run_entry< %s > },'
+        out.append('  { "%s", "%s", "%s", "%s", "%s", %s::nodes, sizeof( %s::nodes ) / sizeof( %s::nodes[ 0 ] ), %d, "%s", %d, MON_KINDS, MON_SELS, %du, %du, &mon::run_entry< %s > },'
                    % (g.gname, cstr(g.text()), g.profile, cstr(g.cell), g.prop, g.gname, g.gname, g.gname, g.top, cstr(g.alphabet), len(g.alphabet), salt, g.features, g.names[-1]))
     out.append("};")
     out.append("int main( int argc, char** argv ) {")
@@ -603,6 +651,16 @@ def make_tus(profile, seed, count, per_tu=10, prop=None):
                 tu.grammars.append(g)
                 gi += 1
             tus.append(("ctx-%d-%d" % (seed, i // per_tu), emit_tu(tu, seed * 977 + i), len(tu.grammars)))
+        return tus
+    if profile == "chain":
+        gi = 0
+        specs = [(k, t) for k in (5, 6, 7, 8, 9, 10, 11) for t in (False, True)]
+        for i in range(0, len(specs), 7):
+            tu = TU()
+            for (k, t) in specs[i:i + 7]:
+                tu.grammars.append(chain_grammar(tu, "g%d" % gi, rnd, k, t))
+                gi += 1
+            tus.append(("chain-%d-%d" % (seed, i // 7), emit_tu(tu, seed * 977 + i), len(tu.grammars)))
         return tus
     default_prop = {"core": "C01", "conv": "C09", "exc": "C05", "act": "C04", "tree": "C12", "buf": "C07"}[profile]
     gi = 0
